@@ -181,6 +181,23 @@ class SymbolicBranch(Exception):
     pass
 
 
+def _decide(cond):
+    """a data-dependent decision: forked by the active path executor; without one it is still
+    decided if the constraint set implies one outcome (e.g. a guard `sin(a) > 1`)"""
+    ex = paths.CUR
+    if ex is None or not getattr(ex, 'active', False):
+        for outcome, neg in ((True, z3.Not(cond)), (False, cond)):
+            sv = z3.Solver()
+            sv.set('timeout', 3000)
+            sv.add(C.dom)
+            sv.add(C.cons)
+            sv.add(neg)
+            if sv.check() == z3.unsat:
+                return outcome
+        raise SymbolicBranch('comparison on a symbolic value outside a path executor: %s' % cond)
+    return ex.decide(cond)
+
+
 # ------------------------------------------------------------------------------------------
 # the scalar
 # ------------------------------------------------------------------------------------------
@@ -521,29 +538,25 @@ class Sym:
             f = val(d)
             return {'gt': f > 0, 'lt': f < 0, 'ge': f >= 0, 'le': f <= 0, 'eq': f == 0, 'ne': f != 0}[op]
         cond = {'gt': d > 0, 'lt': d < 0, 'ge': d >= 0, 'le': d <= 0, 'eq': d == 0, 'ne': d != 0}[op]
-        ex = paths.CUR
-        if ex is None or not getattr(ex, 'active', False):
-            # no executor to fork: the comparison is still decided if the constraint set implies
-            # one outcome (e.g. a guard `sin(a) > 1`)
-            for outcome, neg in ((True, z3.Not(cond)), (False, cond)):
-                sv = z3.Solver()
-                sv.set('timeout', 3000)
-                sv.add(C.dom)
-                sv.add(C.cons)
-                sv.add(neg)
-                if sv.check() == z3.unsat:
-                    return outcome
-            raise SymbolicBranch('comparison on a symbolic value outside a path executor: %s' % cond)
-        return ex.decide(cond)
+        return _decide(cond)
+
+    def __bool__(s):
+        # truth value of a jet = "is it non-zero": its first non-zero coefficient decides
+        for k in sorted(s.co, key=lambda k_: (sum(k_), k_)):
+            c = z3.simplify(s.co[k])
+            if is_val(c):
+                if val(c) != 0:
+                    return True
+                continue
+            if _decide(c != 0):
+                return True
+        return False
 
     def __gt__(s, o): return s._cmp(o, 'gt')
     def __lt__(s, o): return s._cmp(o, 'lt')
     def __ge__(s, o): return s._cmp(o, 'ge')
     def __le__(s, o): return s._cmp(o, 'le')
     __hash__ = object.__hash__
-
-    def __bool__(s):
-        raise SymbolicBranch('truth value of a symbolic scalar')
 
     def __float__(s):
         c0 = z3.simplify(s.c0)
